@@ -162,6 +162,23 @@ func checkCfgInterleaved(c, other PCfg) (msg string, bad bool) {
 		return fmt.Sprintf("ParseJSON(%s): %v", ob, err), true
 	}
 	_ = json.Unmarshal(ob, c.LZ()) // rejected unless the kinds agree
+	// A document of the other type that also carries properties foreign to
+	// it (those of all seven types, non-zero): whether it is accepted or
+	// not, it must leave no trace in what is parsed afterwards.
+	var m map[string]any
+	if json.Unmarshal(ob, &m) == nil {
+		for k, v := range map[string]any{"ShrinkSize": 11, "BufferSize": 77, "WindowSize": 33, "BlockSize": 22,
+			"InputLen": 5, "HashBits": 9, "InputLen1": 4, "HashBits1": 7, "InputLen2": 7, "HashBits2": 8,
+			"MinMatchLen": 6, "MaxMatchLen": 66, "BucketSize": 7, "Cost": "XZCost"} {
+			if _, ok := m[k]; !ok {
+				m[k] = v
+			}
+		}
+		if fb, err := json.Marshal(m); err == nil {
+			_, _ = lz.ParseJSON(fb)
+			_ = json.Unmarshal(fb, other.LZ())
+		}
+	}
 	back, err := lz.ParseJSON(b)
 	if err != nil {
 		return fmt.Sprintf("ParseJSON(%s): %v", b, err), true
